@@ -7,7 +7,7 @@ exit 1  VIOLATION (counterexample reproduced by the real code, dev profile; rele
 exit 2  inconclusive (build failure, unsupported construct, solver unknown, budget, engine/native disagreement)
 """
 import os, sys, json, time, re, subprocess, tempfile, shutil, random, hashlib
-from . import build, run
+from . import build, run, portfolio
 
 VERIF = build.VERIF
 PROPS = {}
@@ -454,8 +454,16 @@ def conclude(pid, tier, seed, b, names, res, t0, cfg):
             'std_models_used': sorted(models)[:200],
             'check_sites_feasible_paths': check_paths,
             'queries': {k: stats.get(k, 0) for k in ('q_branch', 'q_assert', 'sat', 'unsat', 'unknown')},
+            'queries_by_stage': {
+                'incremental_z3_%dms' % eng_caps()[0]: stats.get('q_branch', 0) + stats.get('q_assert', 0) - stats.get('fallback', 0),
+                'fresh_z3_%dms' % eng_caps()[1]: stats.get('fallback', 0) - stats.get('portfolio', 0),
+                'portfolio_%dms' % eng_caps()[2]: {k[len('portfolio_'):]: v for k, v in sorted(stats.items())
+                                                   if k.startswith('portfolio_')} if stats.get('portfolio', 0) else {},
+                'portfolio_queries': stats.get('portfolio', 0),
+            },
             'solver_s': round(stats.get('solver_s', 0.0), 2),
-            'solver': 'z3 ' + z3_version(),
+            'solver': 'z3 ' + z3_version() + ' in process; queries it leaves unknown go to the portfolio: ' +
+                      ', '.join('%s (%s)' % kv for kv in sorted(portfolio.versions().items())),
             'bounds': cfg['bounds'], 'outside_claim': cfg['outside'],
             'source_hash': b['hash'],
             'known_findings_hit': [k['id'] for k, _ in known_hit],
@@ -489,6 +497,11 @@ def conclude(pid, tier, seed, b, names, res, t0, cfg):
         return 2
     log('HELD property=%s within the stated bounds' % pid)
     return 0
+
+
+def eng_caps():
+    return (int(os.environ.get('MIRSYM_FAST_MS', 500)), int(os.environ.get('MIRSYM_FALLBACK_MS', 10_000)),
+            int(os.environ.get('MIRSYM_QUERY_MS', 60_000)))
 
 
 def z3_version():
